@@ -73,6 +73,22 @@ def ref_exact_optional(model, a, b, tree):
     return res
 
 
+def _distinct_pair(model, tags, a, b):
+    ma = [i for i, t in enumerate(tags) if ref_atom(model, a, [t])]
+    mb = [i for i, t in enumerate(tags) if ref_atom(model, b, [t])]
+    return any(i != j for i in ma for j in mb)
+
+
+def ref_group_and(model, a, b, tree, descendants):
+    """'{a && b}': some group has two different direct child tags matching a and b; '[a && b]': some group has two
+    different tags matching a and b anywhere below it."""
+    for G in tree_groups(tree):
+        tags = list(hedgen.leaves(G)) if descendants else [c for c in G if isinstance(c, Leaf)]
+        if _distinct_pair(model, tags, a, b):
+            return True
+    return False
+
+
 def unary(q):
     out = [f"({q})", f"[{q}]", f"{{{q}}}", f"{{{q}:}}"]
     if "?" not in q:
@@ -213,10 +229,33 @@ def worker_laws(rec, shard, nshards, bounds, qdepth, seed):
             got = S(f"{{{a_}: {b_}}}")
             if got and not S(f"{{{a_}}} || {{{a_} && {b_}}}"):
                 rec.violation("C15:exact-with-optional-matches-a-group-holding-something-else", annotation=text, a=a_, b=b_)
+            for q_, desc_ in ((f"{{{a_} && {b_}}}", False), (f"[{a_} && {b_}]", True)):
+                want_g = ref_group_and(model, a_, b_, tree, desc_)
+                if S(q_) != want_g:
+                    rec.violation("C15:group-scoped-and-differs-from-reference:" + ("descendant" if desc_ else "same-level"),
+                                  annotation=text, query=q_, expected=want_g, got=S(q_))
             want = ref_exact_optional(model, a_, b_, tree)
             if want is not None and got != want:
                 rec.violation("C15:exact-with-optional-differs-from-reference", annotation=text, query=f"{{{a_}: {b_}}}",
                               expected=want, got=got)
+        # the same annotation written in long form (and in lower case) gives the same answers
+        for form_, case_ in (("long", None), ("short", "lower"), ("long", "upper")):
+            alt = hedgen.render(tree, form_, case_)
+            if alt is None or alt == text:
+                continue
+            hs_alt = env.HedString(alt, env.schema)
+            for q in [a for a in ATOMS] + q2[::11]:
+                rec.n("evaluations")
+                rec.n("transitions")
+                try:
+                    r_alt = env.search(q, hs_alt)
+                except Exception as e:
+                    rec.violation("C15:search-raises:" + type(e).__name__, annotation=alt, query=q, error=repr(e)[:200])
+                    continue
+                if r_alt != S(q):
+                    kind = "star" if q.endswith("*") else "quoted" if q.startswith('"') else "term" if q in ATOMS else "composite"
+                    rec.violation(f"C15:spelling-of-the-annotation-changes-result:{kind}", annotation=text, respelled=alt,
+                                  query=q, got=r_alt, expected=S(q))
         # all of q2 once (for the permutation-invariance table) + repeatability + purity
         row = tuple(S(q) for q in q2)
         key = hedgen.canon(tree)
